@@ -187,6 +187,7 @@ class Interp:
         max_depth=MAX_DEPTH,
         keep_ext=(),
         stubs=None,
+        erase_masks=True,
     ):
         self.P = program
         self.opaque = set(opaque)  # internal qualnames that are not inlined
@@ -196,6 +197,7 @@ class Interp:
         self.attr_as_key = set(attr_as_key)
         self.max_depth = max_depth
         self.keep_ext = set(keep_ext)
+        self.erase_masks = erase_masks  # x[mask] keeps the elementwise term (arrays); False: row selection is recorded
         self.stubs = dict(stubs or {})  # internal qualname -> callable(bound args) -> Val (replaces the call)
         self.decider = None
         self.events = []
@@ -308,6 +310,10 @@ class Interp:
                 return nf.const(1 if v.a else 0)
             if v.kind == "cmp":
                 return nf.fn("cmp:" + v.op, v.a, v.b)
+            if v.kind in ("and", "or"):
+                return nf.fn("bool:" + v.kind, *sorted((self.to_nf(v.a), self.to_nf(v.b)), key=repr))
+            if v.kind == "not":
+                return nf.fn("bool:not", self.to_nf(v.a))
             return nf.sym(f"<bool:{v.kind}:{v.a!r}>")
         if isinstance(v, StrV):
             return nf.sym(repr(v.s))
@@ -1028,6 +1034,8 @@ class Interp:
                         if k2 == k and neg2 != neg:
                             return base.fill
                 return Num(self.to_nf(base))
+            if not self.erase_masks:
+                return Num(nf.fn("rows", self.to_nf(base), self.to_nf(idx)))
             return base
         if isinstance(base, DictV):
             k = idx.s if isinstance(idx, StrV) else nf.show(self.to_nf(idx))
